@@ -95,7 +95,8 @@ def rotate_params(p):
             res[k] = v.pop()
     for k in ("base", "count", "pattern", "file"):
         if k not in res:
-            raise ShapeUnrecognised("cannot bind rotate's %s parameter from its call sites" % k)
+            shown = ["%s(%s)" % (c.fn.path.rsplit("::", 1)[-1], ", ".join(show(deep_strip(a), 3) for a in c.arg_exprs())) for c in p.all_calls(rot.path)]
+            raise ShapeUnrecognised("the shift loop's function is not called with the roller's own `%s` (a plain field of the roller): call sites %s — the window actually shifted can differ from base..base+count-1" % (k, shown))
     return res
 
 
@@ -156,49 +157,56 @@ def run_cfg(ctx, p, cfg):
     bg = "background_rotation" in feats
     rule_shift_order(ctx, p, cfg, "R1")
 
-    with ctx.rule("R2", "range", cfg) as r:
-        ro = roles(p)
-        rot = ro["rotate"]
-        pr = rotate_params(p)
-        nx = [c for c in rot.calls(NEXT) if rot.in_loop(c.block)]
-        rngs = [x for x in walk(nx[0].arg(0)) if x[0] == "agg" and x[1].startswith("core::ops::range::Range")] if nx else []
-        if len(rngs) != 1:
-            raise ShapeUnrecognised("shift loop range not found")
-        rg = rngs[0]
-        fd = dict(rg[3])
-        vars_ = {"base": ("param", pr["base"]), "count": ("param", pr["count"])}
-        ls, le = linear(fd.get("start"), vars_), linear(fd.get("end"), vars_)
-        incl = rg[1].endswith("RangeInclusive")
-        want_end = {"base": 1, "count": 1, 1: -2} if incl else {"base": 1, "count": 1, 1: -1}
-        r.require(ls == {"base": 1}, "starts-at-base", fn=rot, detail="range start %s -> %s" % (show(fd.get("start"), 4), ls))
-        r.require(le == want_end, "ends-at-base+count-1", fn=rot, detail="range end %s -> %s (%s)" % (show(fd.get("end"), 5), le, "inclusive" if incl else "exclusive"))
-        # the roller passes its own base and count
-        r.require(True, "params-bound", detail="rotate(pattern=arg%d, base=arg%d, count=arg%d, file=arg%d)" % (pr["pattern"], pr["base"], pr["count"], pr["file"]))
+    rule_range(ctx, p, cfg, "R2")
+    rule_final_step(ctx, p, cfg, "R3")
 
-    with ctx.rule("R3", "final step", cfg) as r:
+    with ctx.rule("R10", "archive directories are created", cfg) as r:
         ro = roles(p)
         rot = ro["rotate"]
         pr = rotate_params(p)
-        cs = ro["compress_site"]
-        nx = [c for c in rot.calls(NEXT) if rot.in_loop(c.block)][0]
-        # reached only through loop exhaustion
-        conds = rot.conditions(cs.block)
-        okx = any(strip(si.discr)[0] == "discr" and strip(strip(si.discr)[1])[0] == "call" and strip(strip(si.discr)[1])[1] == NEXT and {si.label(v) for v, _ in al} == {"None"} for sb, si, al in conds)
-        r.require(okx, "after-the-shift", fn=rot, site=cs.at, detail="the final move runs after the shift loop is exhausted")
-        args = cs.arg_exprs()
-        filearg = [a for a in args if deep_strip(a) == ("param", pr["file"])]
-        dst = [index_of(a) for a in args if index_of(a)]
-        r.require(len(filearg) == 1, "moves-the-rolled-file", fn=rot, site=cs.at, detail="source is the rolled file parameter")
-        vars_ = {"base": ("param", pr["base"]), "count": ("param", pr["count"])}
-        r.require(len(dst) == 1 and linear(dst[0][0], vars_) == {"base": 1} and dst[0][1] == ("param", pr["pattern"]), "into-pattern(base)", fn=rot, site=cs.at,
-                  detail="destination index %s" % (show(dst[0][0], 3) if dst else None))
-        r.require(any(x[0] == "call" and x[1] == EXPAND for a in args for x in walk(a)), "destination-expanded", fn=rot, detail="destination passes through expand_env_vars")
-        r.require(common.result_is_checked(rot, cs), "final-error-propagated", fn=rot, site=cs.at, detail="compress/move result is propagated")
-        ok, wit = q.must_follow_on_ok(rot, 0, [cs.block])
-        r.require(ok, "final-step-on-every-ok", fn=rot, detail="every Ok return of rotate passed the final move")
-        # Ok only at the end
-        for x in q.ok_exit_blocks(rot):
-            r.require(rot.dominates(cs.block, x), "ok-only-after-final-step", fn=rot, detail="Ok exit bb%d dominated by the final move" % x)
+        cds = rot.calls("std::fs::create_dir_all")
+        loop_cd = [c for c in cds if rot.in_loop(c.block)]
+        pre_cd = [c for c in cds if not rot.in_loop(c.block)]
+        r.require(len(pre_cd) >= 1 and any(index_of(c.arg(0)) is not None for c in pre_cd), "base-directory-created", fn=rot, detail="the parent of pattern(base) is created before the shift")
+        r.require(len(loop_cd) == 1, "per-index-directory-site", fn=rot, detail="create_dir_all sites inside the shift loop: %d" % len(loop_cd))
+        mv = [c for c in rot.calls(ro["move_file"].path) if rot.in_loop(c.block)]
+        for c in loop_cd:
+            # it creates the parent of the destination of this iteration's move, before the move
+            dsti = index_of(mv[0].arg(1)) if mv else None
+            ci = index_of(c.arg(0))
+            r.require(ci is not None and dsti is not None and ci[0] == dsti[0] and any(x[0] == "call" and x[1] == "std::path::Path::parent" for x in walk(c.arg(0))), "creates-parent-of-destination", fn=rot, site=c.at,
+                      detail="create_dir_all(parent(pattern(i+1)))")
+            nxb = {x.block for x in rot.calls(NEXT)}
+            r.require(bool(mv) and mv[0].block in rot.reach(c.block, avoid=nxb) and c.block not in rot.reach(mv[0].block, avoid=nxb), "before-the-move", fn=rot, detail="directory creation precedes the move of that iteration")
+            # gate: unconditional (besides parent() being Some), or `parent(pattern(base)) != parent(expanded pattern)`
+            gates = []
+            for sb, si, al in rot.conditions(c.block):
+                d = strip(si.discr)
+                if d[0] == "discr":
+                    continue  # iterator / Option<parent> / Try matches
+                gates.append((si, {si.label(v) for v, _ in al}))
+            okg = True
+            why = "unconditional"
+            for si, labs in gates:
+                pl = si.t["discr"].get("copy") or si.t["discr"].get("move")
+                defs = rot.root_defs(pl["l"]) if pl and not pl["p"] else []
+                nonconst = [e for b, e in defs if not (e[0] == "const" and e[1] == "bool")]
+                consts = [e[2] for b, e in defs if e[0] == "const" and e[1] == "bool"]
+                good = labs == {True} and len(nonconst) == 1 and all(cv is False for cv in consts)
+                if good:
+                    nf = cmp_nf(nonconst[0], True)
+                    good = nf is not None and nf[0] == "Ne"
+                    if good:
+                        sides = [nf[1], nf[2]]
+                        par = [[x for x in walk(sd) if x[0] == "call" and x[1] == "std::path::Path::parent"] for sd in sides]
+                        good = all(par) and any(index_of(sd) is not None for sd in sides) and all(any(y == ("param", pr["pattern"]) for y in walk(sd)) for sd in sides) \
+                            and all(any(y[0] == "call" and y[1] == EXPAND for y in walk(sd)) for sd in sides)
+                    why = "gated by parent(pattern(base)) != parent(pattern)" if good else "gate %s" % show(nonconst[0], 5)
+                else:
+                    why = "gate %s with definitions %s" % (show(si.discr, 4), [show(e, 4) for b, e in defs])
+                okg = okg and good
+            r.require(okg, "created-whenever-the-directory-can-differ", fn=rot, site=c.at, detail=why,
+                      fail_detail="the per-index create_dir_all is skipped under a condition that is not `parent(pattern(base)) != parent(pattern)`: %s — with the index in a directory component the archive directory is never created, the rename's NotFound is tolerated and archives are lost" % why)
 
     with ctx.rule("R4", "count == 0", cfg) as r:
         ro = roles(p)
@@ -470,4 +478,54 @@ def rule_shift_order(ctx, p, cfg, rid="R1"):
                 r.require(any(x[0] == "call" and x[1] == EXPAND for x in walk(c.arg(0))) and any(x[0] == "call" and x[1] == EXPAND for x in walk(c.arg(1))), "both-expanded", fn=rot,
                           detail="src and dst pass through expand_env_vars")
             r.require(common.result_is_checked(rot, c), "move-error-propagated", fn=rot, site=c.at, detail="a failing shift step aborts the rotation with its error")
+
+
+
+def rule_range(ctx, p, cfg, rid="R2"):
+    with ctx.rule(rid, "range", cfg) as r:
+        ro = roles(p)
+        rot = ro["rotate"]
+        pr = rotate_params(p)
+        nx = [c for c in rot.calls(NEXT) if rot.in_loop(c.block)]
+        rngs = [x for x in walk(nx[0].arg(0)) if x[0] == "agg" and x[1].startswith("core::ops::range::Range")] if nx else []
+        if len(rngs) != 1:
+            raise ShapeUnrecognised("shift loop range not found")
+        rg = rngs[0]
+        fd = dict(rg[3])
+        vars_ = {"base": ("param", pr["base"]), "count": ("param", pr["count"])}
+        ls, le = linear(fd.get("start"), vars_), linear(fd.get("end"), vars_)
+        incl = rg[1].endswith("RangeInclusive")
+        want_end = {"base": 1, "count": 1, 1: -2} if incl else {"base": 1, "count": 1, 1: -1}
+        r.require(ls == {"base": 1}, "starts-at-base", fn=rot, detail="range start %s -> %s" % (show(fd.get("start"), 4), ls))
+        r.require(le == want_end, "ends-at-base+count-1", fn=rot, detail="range end %s -> %s (%s)" % (show(fd.get("end"), 5), le, "inclusive" if incl else "exclusive"))
+        # the roller passes its own base and count
+        r.require(True, "params-bound", detail="rotate(pattern=arg%d, base=arg%d, count=arg%d, file=arg%d)" % (pr["pattern"], pr["base"], pr["count"], pr["file"]))
+
+
+
+def rule_final_step(ctx, p, cfg, rid="R3"):
+    with ctx.rule(rid, "final step", cfg) as r:
+        ro = roles(p)
+        rot = ro["rotate"]
+        pr = rotate_params(p)
+        cs = ro["compress_site"]
+        nx = [c for c in rot.calls(NEXT) if rot.in_loop(c.block)][0]
+        # reached only through loop exhaustion
+        conds = rot.conditions(cs.block)
+        okx = any(strip(si.discr)[0] == "discr" and strip(strip(si.discr)[1])[0] == "call" and strip(strip(si.discr)[1])[1] == NEXT and {si.label(v) for v, _ in al} == {"None"} for sb, si, al in conds)
+        r.require(okx, "after-the-shift", fn=rot, site=cs.at, detail="the final move runs after the shift loop is exhausted")
+        args = cs.arg_exprs()
+        filearg = [a for a in args if deep_strip(a) == ("param", pr["file"])]
+        dst = [index_of(a) for a in args if index_of(a)]
+        r.require(len(filearg) == 1, "moves-the-rolled-file", fn=rot, site=cs.at, detail="source is the rolled file parameter")
+        vars_ = {"base": ("param", pr["base"]), "count": ("param", pr["count"])}
+        r.require(len(dst) == 1 and linear(dst[0][0], vars_) == {"base": 1} and dst[0][1] == ("param", pr["pattern"]), "into-pattern(base)", fn=rot, site=cs.at,
+                  detail="destination index %s" % (show(dst[0][0], 3) if dst else None))
+        r.require(any(x[0] == "call" and x[1] == EXPAND for a in args for x in walk(a)), "destination-expanded", fn=rot, detail="destination passes through expand_env_vars")
+        r.require(common.result_is_checked(rot, cs), "final-error-propagated", fn=rot, site=cs.at, detail="compress/move result is propagated")
+        ok, wit = q.must_follow_on_ok(rot, 0, [cs.block])
+        r.require(ok, "final-step-on-every-ok", fn=rot, detail="every Ok return of rotate passed the final move")
+        # Ok only at the end
+        for x in q.ok_exit_blocks(rot):
+            r.require(rot.dominates(cs.block, x), "ok-only-after-final-step", fn=rot, detail="Ok exit bb%d dominated by the final move" % x)
 
